@@ -15,7 +15,7 @@ CONSTANTS
   MaxApi = 12
   WithGC = FALSE
   AtomicPeers = FALSE
-  SignedWant = FALSE
+  SignedWant = TRUE
   Serialized = FALSE
   DirectAPI = TRUE
   MaxLen = 50
